@@ -47,9 +47,11 @@ VFPStr(mm, cs) ==
 WildIdx(cs) == \E i \in 1..(Len(cs) - 1) : cs[i] = "*" /\ cs[i+1] = "["     \* index on a wildcard step: order dependent, outside C07
 
 \* sub-key "k<sep>v[<sep>type]": class "ok" | "err".  Over the configs' alphabet (letters a, t; digit 1; the words
-\* bool, num, string) strconv.ParseBool accepts exactly "1" and "t", strconv.ParseFloat exactly the non-empty digit strings
+\* bool, num, string; '.') strconv.ParseBool accepts exactly "1" and "t", strconv.ParseFloat exactly the digit strings with at most one '.' 
 BoolVal(cs) == cs \in {<<"t">>, <<"1">>}
-NumOK(cs) == cs # <<>> /\ \A i \in 1..Len(cs) : cs[i] = "1"
+NumOK(cs) == /\ \A i \in 1..Len(cs) : cs[i] \in {"1", "."}                       \* "1", "11", "1.", ".1", "1.1": digits with at most one '.'
+             /\ \E i \in 1..Len(cs) : cs[i] = "1"
+             /\ Cardinality({i \in 1..Len(cs) : cs[i] = "."}) <= 1
 TypeName(cs) == CASE cs = <<"b", "o", "o", "l">> -> "bool" [] cs = <<"n", "u", "m">> -> "num" [] cs = <<"s", "t", "r", "i", "n", "g">> -> "string" [] OTHER -> "?"
 SubKeyClass(cs, sep) ==
   LET ps == SplitOn(cs, sep) IN
@@ -60,6 +62,19 @@ SubKeyClass(cs, sep) ==
           [] TypeName(ps[3]) = "num" -> IF NumOK(ps[2]) THEN "ok" ELSE "err"
           [] OTHER -> "err")
   ELSE "err"
+\* the condition a sub-key string denotes under field separator sep (getSubKeyMap, and hasSubKeys' reading of a
+\* leading '!' and of the value '*'); [ok |-> FALSE] for a string getSubKeyMap refuses
+ParseSubKey(cs, sep) ==
+  LET ps == SplitOn(cs, sep)
+      neg == ps[1] # <<>> /\ Head(ps[1]) = "!"
+      k == Join(IF neg THEN Tail(ps[1]) ELSE ps[1])
+      Cnd(kind, v) == [ok |-> TRUE, c |-> [k |-> k, neg |-> neg, kind |-> kind, v |-> v]]
+      strc == IF ps[2] = <<"*">> THEN Cnd("star", "*") ELSE Cnd("s", Join(ps[2]))
+  IN IF SubKeyClass(cs, sep) = "err" THEN [ok |-> FALSE, c |-> [k |-> "", neg |-> FALSE, kind |-> "s", v |-> ""]]
+     ELSE IF Len(ps) = 2 THEN strc
+     ELSE CASE TypeName(ps[3]) = "string" -> strc
+            [] TypeName(ps[3]) = "bool" -> Cnd("b", "true")
+            [] TypeName(ps[3]) = "num" -> Cnd("f", Join(ps[2]))
 \* newVal "k<sep>v[<sep>type]" of UpdateValuesForPath: a string type name is not accepted there
 NewValClass(cs, sep) ==
   LET ps == SplitOn(cs, sep) IN
